@@ -32,8 +32,20 @@ func checkC04(c Node) Verdict {
 		if strings.HasPrefix(kw, "PARALLEL") {
 			n = 3 // goroutine scheduling differs from run to run
 		}
-		for i := 0; i < n; i++ {
+		for i := 0; i < 2*n; i++ {
 			doc := FromTagged(c["doc"]).(map[string]any)
+			if i >= n {
+				// the same tables with the left side's numeric keys held as Go ints: equal numbers of different Go
+				// types have to meet as well (the hash path leaves such keys to the nested loop)
+				sig = append(append([]string{}, sig...), "typed-keys")
+				for _, r := range doc["l"].([]any) {
+					if m, ok := r.(map[string]any); ok {
+						if f, ok := m["a"].(float64); ok && f == float64(int(f)) {
+							m["a"] = int(f)
+						}
+					}
+				}
+			}
 			out := Run(doc, sql, false)
 			v.Execs++
 			if out.Panic != nil {
